@@ -1768,6 +1768,9 @@ def m_open(E, a, kw):
 def m_dictreader(E, a, kw):
     """rows of a CSV file as dicts of strings: the rows are whatever the ghost `csv_rows` of the file object says
     (the csv module's parsing of quotes / commas is an assumed text round trip)"""
+    if kw or len(a) != 1:
+        # dialect options (skipinitialspace, delimiter, quoting ...) change how cells are read: outside the assumed text round trip
+        raise Unsupported('csv.DictReader with options %s (the assumed contract is for DictReader(file))' % sorted(kw))
     f = a[0]
     rows = E.cell(f).get('_g_csv_rows')
     if rows is None:
